@@ -102,12 +102,27 @@ def spec (_ : Unit) (op : String) (obs : String) : String :=
           else "specfail C28/panic"
         | _ => "specfail C28/panic"
       | some o =>
-        if Lumina.Spec.C28.specOK (·.height) (·.hash) (toKind req.data) req.amount es o then "specok"
+        if Lumina.Spec.C28.specStrict (·.height) (·.hash) (toKind req.data) req.amount es o then "specok"
+        else if Lumina.Spec.C28.validatedPrefixClass (·.height) (·.hash) (toKind req.data) req.amount es o then
+          "specfail C28/validated-prefix-accepted a bad entry follows good ones: the client accepts the good prefix instead of an error"
         else match o with
-          | .accepted _ => "specfail C28/accepted-malformed accepted response is not an acceptable run / single header"
-          | _ => "specfail C28/refused-perfect a perfect response was refused"
+          | .accepted _ => "specfail C28/accepted-malformed accepted, but the response is not a well-formed run / single header (or the value is not its headers ascending)"
+          | _ => "specfail C28/refused-well-formed a well-formed response was refused"
     | _, _ => "specfail C28/unparsed"
-  | "valid" :: _ => "specskip"
+  | "valid" :: _ =>
+    match parseReq ws with
+    | some req =>
+      let len := match req.data with
+        | .hash _ l => l
+        | _ => 0
+      let v? := (arg? (words obs) "valid").map (· == "true")
+      let h? := (arg? (words obs) "head").map (· == "true")
+      match v?, h? with
+      | some v, some h =>
+        if Lumina.Spec.C28.specValid (toKind req.data) len req.amount v h then "specok"
+        else "specfail C28/is-valid is_valid / is_head_request disagree with the request rules"
+      | _, _ => "specfail C28/unparsed"
+    | none => "specfail C28/unparsed"
   | "reset" :: _ => "specskip"
   | _ => "specfail C28/unparsed"
 
